@@ -356,7 +356,6 @@ theorem slowDomain_of_exact {F : FTy} (hF : IsLemireFloat F) {p eb : Nat} (lay :
       _ = S * 10 ^ ((n.exponent + ↑T + 1 - ↑sig.length).toNat + (fl + (-n.explicitExp).toNat)) := by rw [e1]
       _ = S * 10 ^ (n.exponent + ↑T + 1 - ↑sig.length).toNat * (10 ^ fl * 10 ^ (-n.explicitExp).toNat) := by
           rw [Nat.pow_add, Nat.pow_add]; ring
-  · rw [hsig]; exact Or.inl (by omega)
   · -- the capacity guard of `positive_digit_comp`
     rw [hr, hsig, hsci, hmant]
     intro hpos
